@@ -767,3 +767,17 @@ def rerun_flag_param(P, fn, _cache={}):
                 res = l
     _cache[key] = res
     return res
+
+
+def param_index(fn, name, ty=None, exclude=()):
+    """1-based index of a parameter: the unique parameter of type `ty` (not in `exclude`) when there is exactly one,
+    else the parameter called `name`.  Keeps the rules independent of parameter names where the type already says
+    which one is meant."""
+    if ty is not None:
+        c = [l for l in range(1, fn.argc + 1) if fn.locals[l]["ty"].replace("mdns_sd::", "") == ty and l not in exclude]
+        if len(c) == 1:
+            return c[0]
+    for l in range(1, fn.argc + 1):
+        if fn.locals[l].get("name") == name:
+            return l
+    return None
